@@ -27,6 +27,14 @@ pub enum Op {
         name: String,
     },
     Barrier,
+    /// an ordinary system whose SystemData is a STATIC type of the library (Read / Write / Option / Expect / tuple /
+    /// derived struct over the two controller resources): see `stat_access`
+    Stat {
+        kind: u8,
+        deps: Vec<String>,
+        t: u8,
+        name: String,
+    },
     Tl {
         r: Vec<Res>,
         w: Vec<Res>,
@@ -49,6 +57,17 @@ pub enum Op {
     },
 }
 
+/// Declared access of the static system-data kinds (1: Read<A>, 2: Write<A>, 3: (Read<A>, Write<B>), 4: Option<Read<A>>,
+/// 5: Option<Write<B>>, 6: (ReadExpect<A>, Option<Write<B>>), 7: WriteExpect<B>, 8: derived struct {Read<A>, Write<B>}).
+pub fn stat_access(kind: u8) -> (Vec<Res>, Vec<Res>) {
+    match kind {
+        1 | 4 => (vec![CTL_A], vec![]),
+        2 => (vec![], vec![CTL_A]),
+        5 | 7 => (vec![], vec![CTL_B]),
+        _ => (vec![CTL_A], vec![CTL_B]),
+    }
+}
+
 pub fn ctl_access(ctl: u8) -> (Vec<Res>, Vec<Res>) {
     match ctl {
         0 => (vec![], vec![]),
@@ -64,7 +83,7 @@ impl Prog {
         let mut seen = std::collections::BTreeSet::new();
         for o in &self.ops {
             match o {
-                Op::Add { deps, name, .. } => {
+                Op::Add { deps, name, .. } | Op::Stat { deps, name, .. } => {
                     out.extend(deps.iter().cloned());
                     if !seen.insert(name.clone()) {
                         out.insert(name.clone());
@@ -87,7 +106,7 @@ impl Prog {
         self.ops
             .iter()
             .map(|o| match o {
-                Op::Add { .. } | Op::Tl { .. } => 1,
+                Op::Add { .. } | Op::Tl { .. } | Op::Stat { .. } => 1,
                 Op::Batch { inner, .. } | Op::Nest { inner } => 1 + inner.count_systems(),
                 Op::Barrier => 0,
             })
@@ -117,6 +136,11 @@ impl Prog {
                     inner.resources(out);
                 }
                 Op::Nest { inner } => inner.resources(out),
+                Op::Stat { kind, .. } => {
+                    let (r, w) = stat_access(*kind);
+                    out.extend(r);
+                    out.extend(w);
+                }
                 Op::Barrier => {}
             }
         }
@@ -146,6 +170,8 @@ pub struct GenCfg {
     pub times: Vec<u8>,
     pub inner_tl: bool,
     pub p_nest: f64,
+    /// share of the ordinary systems that use a static system-data type
+    pub p_stat: f64,
 }
 
 impl GenCfg {
@@ -169,6 +195,7 @@ impl GenCfg {
             times: vec![1, 2, 3, 4, 5],
             inner_tl: false,
             p_nest: 0.0,
+            p_stat: 0.0,
         }
     }
 }
@@ -589,6 +616,9 @@ pub fn gen_prog(rng: &mut StdRng, cfg: &GenCfg, depth: usize, prefix: &str) -> P
                 t,
                 name: name.clone(),
             });
+        } else if cfg.p_stat > 0.0 && rng.gen_bool(cfg.p_stat) {
+            // a system whose data is one of the library's static system-data types
+            ops.push(Op::Stat { kind: rng.gen_range(1..=8), deps, t, name: name.clone() });
         } else {
             let (mut r, mut w) = pick_acc(rng);
             // next to a batch whose controller declares data of its own: outer systems touching exactly that data
